@@ -122,6 +122,7 @@ Proof.
   - simpl in E. apply (nh_norm l true) in Pt. rewrite E in Pt. simpl in Pt. apply andb_true_iff in Pt.
     destruct Pt as [Pt _]. destruct i'; try discriminate Pt; exact I.
   - destruct (dcb s d); simpl in E; inversion E; subst. exact I.
+  - destruct (dcb s d); simpl in E; inversion E; subst. exact I.
 Qed.
 
 Lemma CI_tick s ts : CI s -> CI (s <| clock := ts |>).
